@@ -128,6 +128,36 @@ def worker(spec_path, out_path):
             warnings.simplefilter("ignore")
             from hypnotoad.core.mesh import BoutMesh
 
+            rlog = None
+            if spec.get("refinelog"):
+                # record which refinement method produced each point (serial builds only: the wrappers live in this process)
+                from hypnotoad.core.equilibrium import PsiContour
+
+                rlog = {"counts": {}, "fallback_worst": 0.0, "fallback_points": []}
+                for mname in ("refinePointNewton", "refinePointLinesearch", "refinePointIntegrate"):
+                    def wrap(orig, mname):
+                        def w(self, p, tangent, *, psi, width, atol):
+                            out = orig(self, p, tangent, psi=psi, width=width, atol=atol)
+                            self._verif_last = mname
+                            return out
+                        return w
+                    setattr(PsiContour, mname, wrap(getattr(PsiContour, mname), mname))
+                orig_rp = PsiContour.refinePoint
+
+                def rp(self, p, tangent, *, psi, **kw):
+                    self._verif_last = "none/unrefined"
+                    out = orig_rp(self, p, tangent, psi=psi, **kw)
+                    m = self._verif_last
+                    rlog["counts"][m] = rlog["counts"].get(m, 0) + 1
+                    if m == "refinePointIntegrate" and self.psival is not None:
+                        e = abs(float(psi(out.R, out.Z)) - self.psival)
+                        if e > rlog["fallback_worst"]:
+                            rlog["fallback_worst"] = e
+                        if len(rlog["fallback_points"]) < 20:
+                            rlog["fallback_points"].append((float(out.R), float(out.Z), float(self.psival), e))
+                    return out
+
+                PsiContour.refinePoint = rp
             # optional history: grids built (and discarded) earlier in the same interpreter
             for hs in spec.get("history", []):
                 heq = make_equilibrium(hs)
@@ -136,6 +166,10 @@ def worker(spec_path, out_path):
                 del hm, heq
             eq = make_equilibrium(spec)
             mesh = BoutMesh(eq, dict(spec["options"]))
+            # extractors that only need the constructed mesh (contours): their result survives a failing geometry()
+            res["early"] = {}
+            for name in spec.get("extract_early", []):
+                res["early"][name] = extractors.EXTRACTORS[name](eq, mesh, spec)
             mesh.geometry()
             nc = out_path + ".nc"
             mesh.writeGridfile(nc)
@@ -143,6 +177,8 @@ def worker(spec_path, out_path):
             os.remove(nc)
             res["vars"], res["attrs"] = v, a
             res["extras"] = {}
+            if rlog is not None:
+                res["extras"]["refinelog"] = rlog
             for name in spec.get("extract", []):
                 res["extras"][name] = extractors.EXTRACTORS[name](eq, mesh, spec)
             del mesh, eq
